@@ -302,6 +302,30 @@ pub fn worker(check: &dyn Check, tier: Tier, widx: u64, nworkers: u64, seed: u64
             cases.push((-(i as i64) - 1, c));
         }
     }
+    // Watchdog: a case that does not finish is a blocked-forever library call (or a harness bug);
+    // either way the worker must not hang the batch. The parent attributes the death to the case.
+    let progress = std::sync::Arc::new(std::sync::atomic::AtomicU64::new(0));
+    {
+        let progress = progress.clone();
+        std::thread::spawn(move || {
+            let mut last = 0u64;
+            let mut stuck_for = 0u64;
+            loop {
+                std::thread::sleep(std::time::Duration::from_secs(5));
+                let now = progress.load(std::sync::atomic::Ordering::Relaxed);
+                if now == last {
+                    stuck_for += 5;
+                    if stuck_for >= 180 {
+                        eprintln!("watchdog: one case has been running for {stuck_for}s; giving up on this worker");
+                        std::process::exit(3);
+                    }
+                } else {
+                    last = now;
+                    stuck_for = 0;
+                }
+            }
+        });
+    }
     let mut run = widx;
     let mut capped = false;
     let mut scripted_iter = cases.into_iter();
@@ -324,6 +348,7 @@ pub fn worker(check: &dyn Check, tier: Tier, widx: u64, nworkers: u64, seed: u64
         // an abort (SIGSEGV, non-unwinding panic) is attributed to this case by the parent
         let _ = std::fs::write(&status_path, serde_json::to_string(&json!({"run": run_id, "case": case})).unwrap());
         stats.runs += 1;
+        progress.fetch_add(1, std::sync::atomic::Ordering::Relaxed);
         match exec_case(check, &case, &mut stats) {
             Ok(()) => {
                 stats.sample(json!({"run": run_id, "case": compact_case(&case)}), 2);
@@ -491,7 +516,8 @@ pub fn run_check(check: &dyn Check, tier: Tier) -> i32 {
             if let Ok(text) = std::fs::read_to_string(&status)
                 && let Ok(doc) = serde_json::from_str::<Value>(&text)
             {
-                let v = Violation::new(check.id(), "abort/process-died", format!("worker {w} died ({}) while running this case; stderr tail:\n{tail}", out.status));
+                let class = if out.status.code() == Some(3) { "hang/case-did-not-finish" } else { "abort/process-died" };
+                let v = Violation::new(check.id(), class, format!("worker {w} died ({}) while running this case; stderr tail:\n{tail}", out.status));
                 let path = write_replay(check, &doc["case"], &v, seed, doc["run"].as_i64().unwrap_or(0), false);
                 violations.push(json!({"property": check.id(), "class": v.class, "detail": v.detail, "replay": path.to_string_lossy(), "run": doc["run"]}));
             } else {
